@@ -12,7 +12,7 @@ here; mutual exclusion under all interleavings and cancellation is the bounded e
 import z3
 
 from pyvc.values import *
-from pyvc.values import _b
+from pyvc.values import _b, _t
 from pyvc.engine import Contract, Loop, PyRaise, SeqView
 
 F = 'pymap/concurrent.py'
@@ -146,3 +146,221 @@ release_read = Contract(
 CONTRACTS = [write_lock, read_lock, acquire_read, release_read]
 ALL_REG = dict(REG)
 ALL_REG.update(RW_REG)
+
+
+# ---- _AsyncioReadWriteLock under interleaving: yield-point invariant with per-task ghost contributions
+#
+# Every task sees the lock through its OWN contribution and the sum of everybody else's:
+#   mine / rest     this task's / the other tasks' net contribution to _counter  (mine is updated by the write hook on
+#                   `_counter`: every write by this task changes `mine` by the same amount)
+#   wmine / wrest   1 while this task / another task is inside write_lock (holds the write mutex as THE writer)
+#   rmine / rrest   1 while this task / another task holds the readers' mutex
+# INV is asserted at every suspension point and at every exit (normal, cancelled, failing critical section) and is all
+# that is known after a suspension (the record and rest/wrest/rrest are havocked: any number of other tasks ran any
+# number of segments).  Composition (lemma rwlock_views_compose, proved by z3): if task j's segment preserves INV in
+# j's view and leaves j's `rest` alone, INV holds in every other task's view afterwards.
+RWLI = RecS('RWLockI', pyclass=(F, '_AsyncioReadWriteLock'), _read_lock=ALOCK, _write_lock=ALOCK, _counter=INT)
+_G = ('mine', 'rest', 'wmine', 'wrest', 'rmine', 'rrest')
+
+
+def _counter_hook(st, rec, old, new):
+    if old is not None and 'mine' in st.ghost:
+        st.ghost['mine'] = VInt(st.ghost['mine'].t + (new.t - old.t))
+
+
+RWLI.hooks['_counter'] = _counter_hook
+
+
+def _gi(s, n):
+    return _t(s.ghost(n))
+
+
+def _i_ghost_init(st, sc):
+    for g in _G:
+        st.ghost[g] = INT.fresh('g_' + g)
+
+
+def _writers(s):
+    return _gi(s, 'wmine') + _gi(s, 'wrest')
+
+
+INV = [
+    ('count_is_the_sum_of_contributions', lambda s: _t(s.self._counter) == _gi(s, 'mine') + _gi(s, 'rest')),
+    ('contributions_nonneg', lambda s: z3.And(_gi(s, 'mine') >= 0, _gi(s, 'rest') >= 0)),
+    ('at_most_one_writer', lambda s: z3.And(_gi(s, 'wmine') >= 0, _gi(s, 'wrest') >= 0, _writers(s) <= 1)),
+    ('readers_hold_the_write_mutex', lambda s: z3.Implies(_t(s.self._counter) > 0, _b(s.self._write_lock.locked))),
+    ('a_writer_holds_the_write_mutex_and_excludes_readers',
+     lambda s: z3.Implies(_writers(s) == 1, z3.And(_b(s.self._write_lock.locked), _t(s.self._counter) == 0))),
+    ('write_mutex_is_never_orphaned',
+     lambda s: z3.Implies(_b(s.self._write_lock.locked), z3.Or(_t(s.self._counter) > 0, _writers(s) == 1))),
+    ('readers_mutex_has_one_holder',
+     lambda s: z3.And(_gi(s, 'rmine') >= 0, _gi(s, 'rrest') >= 0, _gi(s, 'rmine') + _gi(s, 'rrest') <= 1,
+                      _b(s.self._read_lock.locked) == (_gi(s, 'rmine') + _gi(s, 'rrest') == 1))),
+]
+
+
+def _i_on_yield(ex):
+    for g in ('rest', 'wrest', 'rrest'):
+        ex.st.ghost[g] = INT.fresh('g_' + g)
+
+
+def _i_atomic():
+    from pyvc.engine import Atomic
+    return Atomic(shared=['self'], invariant=INV, may_cancel=True, on_yield=_i_on_yield)
+
+
+def _i_acquire(ex, lock, site, owner):
+    """asyncio.Lock.acquire (assumed contract): returns -- possibly after a suspension, during which a cancellation
+    may be delivered and nothing is taken -- only when nobody holds the lock, and this task holds it from then on"""
+    if ex.choose(2) == 1:
+        ex.yield_point(site)
+    ex.assume(~ex.st.store[lock.rid]['locked'])
+    ex.st.store[lock.rid]['locked'] = VBool(True)
+    if owner:
+        ex.oblige(f'{ex.c.name}/{site}/not_already_the_holder', ex.st.ghost[owner].t == 0)
+        ex.st.ghost[owner] = VInt(z3.IntVal(1))
+
+
+def _i_release(ex, lock, site, owner):
+    ex.oblige(f'{ex.c.name}/{site}/release_of_a_lock_that_is_held', ex.st.store[lock.rid]['locked'].t)
+    if owner:
+        ex.oblige(f'{ex.c.name}/{site}/release_by_the_holder', ex.st.ghost[owner].t == 1)
+        ex.st.ghost[owner] = VInt(z3.IntVal(0))
+    else:
+        # the write mutex given up on behalf of the readers: no writer may be inside
+        ex.oblige(f'{ex.c.name}/{site}/readers_release_only_what_the_readers_hold',
+                  ex.st.ghost['wmine'].t + ex.st.ghost['wrest'].t == 0)
+    ex.st.store[lock.rid]['locked'] = VBool(False)
+
+
+def _i_ctx(owner):
+    def model(ex, frame, item, phase):
+        base = ex.eval(item.context_expr, frame)
+        site = ast_name(item.context_expr)
+        if phase == 'enter':
+            _i_acquire(ex, base, f'acquire.{site}', owner)
+        else:
+            _i_release(ex, base, f'release.{site}', owner)
+    return model
+
+
+def ast_name(e):
+    import ast
+    return ast.unparse(e).replace('self.', '')
+
+
+def _i_w_acquire(ex, frame, e, base=None):
+    base = base if base is not None else ex.eval(e.func.value, frame)
+    _i_acquire(ex, base, 'acquire._write_lock', None)
+    return VBool(True)
+
+
+def _i_w_release(ex, frame, e, base=None):
+    base = base if base is not None else ex.eval(e.func.value, frame)
+    _i_release(ex, base, 'release._write_lock', None)
+    return VNone()
+
+
+def _same(*names):
+    return [(f'{n}_as_on_entry', (lambda s, n=n: _gi(s, n) == _gi(s.old, n))) for n in names]
+
+
+import asyncio as _asyncio
+
+_I_CALLS = {'self._read_lock': _i_ctx('rmine'), 'self._write_lock.acquire': _i_w_acquire,
+            'self._write_lock.release': _i_w_release}
+_not_holding_R = ('not_holding_the_readers_mutex', lambda s: _gi(s, 'rmine') == 0)
+
+i_acquire_read = Contract(
+    'C20', F, '_AsyncioReadWriteLock._acquire_read', variant='interleaved', params=dict(self=RWLI),
+    ghost_init=_i_ghost_init, requires=INV + [_not_holding_R], atomic=_i_atomic(), calls=_I_CALLS,
+    ensures=INV + [_not_holding_R, ('counted_as_a_reader', lambda s: _gi(s, 'mine') == _gi(s.old, 'mine') + 1)] +
+    _same('wmine'),
+    raises={_asyncio.CancelledError: INV + [_not_holding_R] + _same('mine', 'wmine')},
+    raises_only=(_asyncio.CancelledError,),
+    note='any number of other tasks may run at every suspension; a cancellation may arrive at every suspension')
+
+i_release_read = Contract(
+    'C20', F, '_AsyncioReadWriteLock._release_read', variant='interleaved', params=dict(self=RWLI),
+    ghost_init=_i_ghost_init, requires=INV + [('counted_as_a_reader', lambda s: _gi(s, 'mine') >= 1)],
+    calls=_I_CALLS, raises_only=(),
+    ensures=INV + [('no_longer_counted', lambda s: _gi(s, 'mine') == _gi(s.old, 'mine') - 1)] +
+    _same('wmine', 'rmine'))
+
+
+def _cs(kind):
+    def hook(ex, frame, v):
+        """the critical section (the `yield` of the context manager): any number of suspensions, during which any
+        number of other tasks run; it may fail or be cancelled"""
+        g = ex.st.ghost
+        rec = ex.st.store[ex.entry_names['self'].rid]
+
+        def claims(when):
+            base = f'{ex.c.name}/critical_section.{when}'
+            if kind == 'read':
+                ex.oblige(f'{base}/the_reader_is_counted', g['mine'].t >= 1)
+                ex.oblige(f'{base}/no_writer_is_inside', g['wmine'].t + g['wrest'].t == 0)
+            else:
+                ex.oblige(f'{base}/this_task_is_the_writer', g['wmine'].t == 1)
+                ex.oblige(f'{base}/no_reader_is_inside', rec['_counter'].t == 0)
+                ex.oblige(f'{base}/no_other_writer_is_inside', g['wrest'].t == 0)
+        claims('on_entry')
+        ex.yield_point('critical_section', frame)
+        claims('after_any_interleaving')
+        g['entered_cs'] = VBool(True)
+        if ex.choose(2) == 1:
+            raise PyRaise(BodyFailure)
+    return hook
+
+
+def _i_ghost_init_cs(st, sc):
+    _i_ghost_init(st, sc)
+    st.ghost['entered_cs'] = VBool(False)
+
+
+def _i_lock(name, kind, extra_req=()):
+    post = INV + _same('mine', 'wmine', 'rmine')
+    c = Contract(
+        'C20', F, f'_AsyncioReadWriteLock.{name}', variant='interleaved', params=dict(self=RWLI),
+        ghost_init=_i_ghost_init_cs, yields=INT, requires=INV + [_not_holding_R] + list(extra_req),
+        atomic=_i_atomic(),
+        calls=dict(_I_CALLS, **{'self._write_lock': _i_ctx('wmine')}),
+        inline={'RWLockI._acquire_read', 'RWLockI._release_read'},
+        ensures=post + [('critical_section_was_entered', lambda s: s.ghost('entered_cs'))],
+        raises={_asyncio.CancelledError: post, BodyFailure: post},
+        raises_only=(_asyncio.CancelledError, BodyFailure))
+    c.on_yield_value = _cs(kind)
+    return c
+
+
+i_read_lock = _i_lock('read_lock', 'read')
+i_write_lock = _i_lock('write_lock', 'write',
+                       [('not_already_the_writer', lambda s: _gi(s, 'wmine') == 0),
+                        ('not_a_reader', lambda s: _gi(s, 'mine') == 0)])
+
+
+def rwlock_views_compose():
+    """composition lemma: a segment of task j that preserves INV in j's view, leaving j's `rest` ghosts alone, leaves
+    INV true in the view of any other task i (whose `rest` absorbs j's change)"""
+    I = z3.Int
+    c, c2, mi, mj, mj2, t = I('c'), I('c2'), I('mi'), I('mj'), I('mj2'), I('t')
+    wi, wj, wj2, wt = I('wi'), I('wj'), I('wj2'), I('wt')
+    ri, rj, rj2, rt = I('ri'), I('rj'), I('rj2'), I('rt')
+    W, W2, R, R2 = z3.Bool('W'), z3.Bool('W2'), z3.Bool('R'), z3.Bool('R2')
+
+    def inv(c, mine, rest, wmine, wrest, rmine, rrest, W, R):
+        wr = wmine + wrest
+        return z3.And(c == mine + rest, mine >= 0, rest >= 0, wmine >= 0, wrest >= 0, wr <= 1,
+                      z3.Implies(c > 0, W), z3.Implies(wr == 1, z3.And(W, c == 0)),
+                      z3.Implies(W, z3.Or(c > 0, wr == 1)),
+                      rmine >= 0, rrest >= 0, rmine + rrest <= 1, R == (rmine + rrest == 1))
+    hyp = z3.And(t >= 0, wt >= 0, rt >= 0,
+                 inv(c, mi, mj + t, wi, wj + wt, ri, rj + rt, W, R),          # i's view before
+                 inv(c, mj, mi + t, wj, wi + wt, rj, ri + rt, W, R),          # j's view before
+                 inv(c2, mj2, mi + t, wj2, wi + wt, rj2, ri + rt, W2, R2))    # j's view after j's segment
+    goal = inv(c2, mi, mj2 + t, wi, wj2 + wt, ri, rj2 + rt, W2, R2)           # i's view after
+    return [hyp], goal
+
+
+CONTRACTS_INTERLEAVED = [i_acquire_read, i_release_read, i_read_lock, i_write_lock]
+CONTRACTS = CONTRACTS + CONTRACTS_INTERLEAVED
